@@ -14,7 +14,7 @@ package compiler
 
 // C13: package, type and constructor names are the configured ones or the documented defaults.
 //@ func (*StepCompileMeta).Process
-//@   property C13 C14
+//@   property C13 C14 C03 C15
 //@   requires d != nil
 //@   requires [wired] s.aliasRegisterer != nil && s.funcRegisterer != nil
 //@   modifies d.Meta
@@ -44,11 +44,19 @@ package compiler
 //@        && evIs(b, "internal/pkg/compiler:aliasRegisterer.RegisterPrefixAlias") && evS1(b) == n && evS2(b) == imports[n])
 
 //@ func (*StepCompileMeta).handleFunctions
-//@   property C14 C15
+//@   property C14 C15 C03
 //@   requires [wired] s.funcRegisterer != nil
 //@   ensures [registers_functions_only] tlen() >= old(tlen()) && (forall k int :: old(tlen()) <= k && k < tlen() ==> evIs(k, "internal/pkg/compiler:funcRegisterer.RegisterFunc"))
+// every declared function is registered under its own name, and the import it is registered with is a plain path: never
+// quoted, and never "." (the current package is the empty import) - the forms of one package denote one package (C14)
+//@   ensures [every_function_is_registered] forall n string :: n in fns ==> (exists b int :: old(tlen()) <= b && b < tlen()
+//@        && evIs(b, "internal/pkg/compiler:funcRegisterer.RegisterFunc") && evS1(b) == n)
+//@   ensures [imports_are_registered_sanitized] forall k int :: old(tlen()) <= k && k < tlen() ==> !hasPrefix(evS2(k), "\"") && !hasSuffix(evS2(k), "\"") && evS2(k) != "."
 //@   loop 1
 //@     invariant [only] tlen() >= old(tlen()) && (forall k int :: old(tlen()) <= k && k < tlen() ==> evIs(k, "internal/pkg/compiler:funcRegisterer.RegisterFunc"))
+//@     invariant [done] forall n string :: n in visited ==> (exists b int :: old(tlen()) <= b && b < tlen()
+//@        && evIs(b, "internal/pkg/compiler:funcRegisterer.RegisterFunc") && evS1(b) == n)
+//@     invariant [sanitized] forall k int :: old(tlen()) <= k && k < tlen() ==> !hasPrefix(evS2(k), "\"") && !hasSuffix(evS2(k), "\"") && evS2(k) != "."
 
 // C05: scope keyword -> output scope. The scope of every compiled service is the image of the declared
 // scope of the service with the same name (unset -> default); nothing else in *o changes.
@@ -228,7 +236,7 @@ package compiler
 // C10 / C12: compile steps run in order and stop at the first failing one, so that later steps only ever see an input
 // that every earlier step (validation first) accepted.
 //@ func (Compiler).Compile
-//@   property C10 C12 C11
+//@   property C10 C12 C11 C02 C03 C04 C05 C13 C14 C15 C06 C07
 //@   requires [wired] forall j int :: 0 <= j && j < len(c.steps) ==> c.steps[j] != nil
 //@   ensures [runs_a_prefix_in_order] tlen() >= old(tlen()) && tlen() - old(tlen()) <= len(c.steps)
 //@        && (forall j int :: 0 <= j && j < tlen() - old(tlen()) ==> evIs(old(tlen()) + j, "internal/pkg/compiler:Step.Process") && evRecv(old(tlen()) + j) == c.steps[j])
